@@ -40,7 +40,7 @@ type (
 	timingEntry struct {
 		baseEntry
 		value   any
-		circle  int
+		circle  int64
 		diff    int
 		removed bool
 	}
@@ -300,10 +300,11 @@ func (w *TimingWheel) moveTask(task baseEntry) {
 	w.setTimerPosition(pos, newItem)
 }
 
-func (w *TimingWheel) getPositionAndCircle(d time.Duration) (pos, circle int) {
-	steps := int(d / w.interval)
-	pos = (w.tickedPos + steps) % w.numSlots
-	circle = (steps - 1) / w.numSlots
+func (w *TimingWheel) getPositionAndCircle(d time.Duration) (pos int, circle int64) {
+	// 用 int64 计算：32 位平台上 int(d / w.interval) 在 2^31 个间隔处回绕
+	steps := int64(d / w.interval)
+	pos = int((int64(w.tickedPos) + steps%int64(w.numSlots)) % int64(w.numSlots))
+	circle = (steps - 1) / int64(w.numSlots)
 
 	return
 }
